@@ -1,6 +1,7 @@
 """C10 - chain verification accepts exactly the chains a reference path validator accepts (x509.Verify)."""
 ID = "C10"
 PROPS = "Props/C10.v"
+COQ_TIMEOUT = 5400   # Coq build of this property incl. rebuilt dependencies; generous: on a loaded machine a rebuild after an upstream edit took > 1500 s
 GEN = ["x509verify", "x509tables"]
 LEGS = [
     {"driver": "c10", "runner": ("x509", "Extract/ExtractX509.v", "X509_model")},
